@@ -144,6 +144,13 @@ func runCaseRaw(c Case, res *lib.Result) string {
 			sig := "roundtrip-changes-components scheme=" + r0.Scheme
 			res.Fail(sig, fmt.Sprintf("New(%q)=%+v; CommonName %q re-parses to %+v (err %v)", c.Str, r0, cn, r1, err1), c)
 		}
+		// oracle: a string with a scheme separator is accepted only under the scheme it spells, and only a known one
+		if i := strings.Index(c.Str, "://"); i >= 0 {
+			sch := c.Str[:i]
+			if sch != r0.Scheme || (sch != "reg" && sch != "ocidir" && sch != "ocifile") {
+				res.Fail("accepted-malformed-scheme", fmt.Sprintf("New(%q) was accepted with scheme %q although the text spells scheme %q", c.Str, r0.Scheme, sch), c)
+			}
+		}
 		// oracle: accepted references obey the grammar's rejections
 		if r0.Scheme == "reg" {
 			if r0.Repository != strings.ToLower(r0.Repository) || r0.Repository == "" || strings.Contains(r0.Repository, "//") ||
